@@ -30,10 +30,12 @@ from ..tlc import MachineryError
 LEVEL = "model_checking"
 AREA = "locals"
 BUGS = ("setattr", "delattr", "release", "push", "pop", "release_stack", "proxy_early", "spawn_fresh",
-        "release_all", "falsy_unbound", "iop_rebind")
-BUGS_QUICK = ("setattr", "pop", "release", "proxy_early", "falsy_unbound", "iop_rebind")
+        "release_all", "falsy_unbound", "iop_rebind", "mgr_iter", "cleanup_first", "mw_forget")
+BUGS_QUICK = ("setattr", "pop", "release", "proxy_early", "falsy_unbound", "iop_rebind", "mgr_iter", "mw_forget")
 MUTATORS = {"set", "del", "release", "push", "pop", "release_stack", "cleanup", "proxy_mutate", "proxy_pop",
-            "proxy_clear", "proxy_iadd", "proxy_isub", "proxy_ior", "proxy_imul"}
+            "proxy_clear", "proxy_iadd", "proxy_isub", "proxy_ior", "proxy_imul", "mw", "release_dunder",
+            "release_stack_dunder", "pop_all"}
+RELEASE_PATHS = {"release", "release_stack", "cleanup", "release_dunder", "release_stack_dunder", "mw", "pop_all"}
 
 
 def _job(job):
@@ -66,6 +68,12 @@ def judge_jobs(ctx: Ctx, jobs, kind="c18"):
         executed += len(tl)
         if _nontrivial(ops):
             ctx.nontrivial.add(hashlib.sha1(json.dumps(ops, sort_keys=True).encode()).hexdigest()[:16])
+        # histories in which a release path ran while something was bound in the releasing context
+        for prev, ln in zip(tl[1:], tl[2:]):
+            if ln["op"] in RELEASE_PATHS and any(e["c"] == ln["ctx"] and (e["iter"] or e["stack"]) for e in prev["obs"]):
+                ctx.nontrivial.add(("release", ln["op"], ln["k"], ln["v"], hashlib.sha1(
+                    json.dumps(ops[: ln["i"] + 1], sort_keys=True).encode()).hexdigest()[:12]))
+                ctx.notes["release_after_bound"] = ctx.notes.get("release_after_bound", 0) + 1
         key = hashlib.sha1(json.dumps(tl[1:] + [tl[0]["made"]], sort_keys=True).encode()).digest()
         t = seen.get(key)
         if t is None:
@@ -128,7 +136,8 @@ def judge_selftest(ctx: Ctx):
     ops = [loc.mkop(1, "set", n="x", b=1), loc.mkop(1, "push", b=2), loc.mkop(1, "mkproxy", k="x"),
            loc.mkop(1, "spawn", child=2), loc.mkop(2, "set", n="x", b=2), loc.mkop(2, "pop"),
            loc.mkop(1, "proxy_mutate", k="x", v=1), loc.mkop(2, "release"),
-           loc.mkop(2, "set", n="x", b=9), loc.mkop(2, "proxy_iadd", k="x", v=1)]
+           loc.mkop(2, "set", n="x", b=9), loc.mkop(2, "proxy_iadd", k="x", v=1),
+           loc.mkop(2, "mkmgr", k="local"), loc.mkop(2, "mw", n="x", b=1, v=1, k="make")]
     good = loc.run_trace("copy_context", ops)
     variants = {"clean": None,
                 "sibling-attr": lambda tl: tl[5]["obs"][0]["get"][0].__setitem__("id", 2),   # ctx 1 sees ctx 2's x
@@ -140,7 +149,11 @@ def judge_selftest(ctx: Ctx):
                 # after `name += 1` in ctx 2 the name must still hold the proxy, for ctx 1 too
                 "iop-rebind": lambda tl: tl[10]["obs"][0]["prox"][0].__setitem__("isproxy", False),
                 # len() through the proxy must be the accessing context's object's
-                "fwd-len": lambda tl: tl[10]["obs"][1]["prox"][0]["fw"].__setitem__(0, 2)}
+                "fwd-len": lambda tl: tl[10]["obs"][1]["prox"][0]["fw"].__setitem__(0, 2),
+                # after the middleware's iterable was closed in ctx 2, x must be gone there
+                "not-released": lambda tl: tl[12]["obs"][1]["get"][0].__setitem__("id", 1),
+                # ... and ctx 1 must still have its x
+                "release-leaks": lambda tl: tl[12]["obs"][0]["get"][0].__setitem__("id", 0)}
     lines, names = [], []
     for t, (name, f) in enumerate(variants.items()):
         tl = json.loads(json.dumps(good))
@@ -174,12 +187,14 @@ def run(ctx: Ctx):
     q = ctx.quick
     rng = random.Random(ctx.seed)
     ctx.rule = ("case = one operation (set/get/del/iter/release, push/pop/top/release_stack, LocalManager.cleanup, "
+                "LocalManager() / (local) / (stack) / ([..]) / .locals.append, requests through make_middleware / @middleware "
+                "(consumed, unconsumed, partly consumed, app raising), __release_local__, pop to empty, "
                 "create proxy, read / mutate / pop() / clear() / += -= |= *= through proxy, spawn child context; stored objects: "
                 "plain, __bool__-falsy, ints, strs, a tuple, a frozenset, lists, a dict) executed on the real objects inside a "
                 "behaviour, followed by reading everything every live context can see, judged by TLC; behaviours: tours "
                 "covering every transition of the TLC-exported contract LTS + seeded random schedules, each realised with "
                 "copy_context, lock-stepped threads and hand-stepped asyncio tasks; non-trivial = distinct behaviour with a "
-                "mutation after a second context exists")
+                "mutation after a second context exists, or a release path taken while something is bound in the releasing context")
     ctx.assumptions += [
         "interleaving granularity = one public operation (each Local/LocalStack operation is one ContextVar get/set pair on a "
         "per-context variable; preemption inside an operation is not explored)",
@@ -189,6 +204,10 @@ def run(ctx: Ctx):
         "and leaves the proxy in the name (_ProxyIOp docstring); operands of the wrong type raise what Python raises for the object",
         "forwarded len/iter/[0]/in/+/hash/str/== are judged against what Python answers for the modelled object (items of a list "
         "grown through the proxy are not modelled: `7 in` accepts both answers there); `unbound == x` is not judged",
+        "a release path must leave nothing of what it releases visible in the releasing context and must not touch any other; "
+        "left open (both outcomes accepted): whether locals are released when the app raises inside the middleware, and a "
+        "LocalManager(...) call that raises (LocalManager(bare LocalStack) raises TypeError on this tree although the annotation "
+        "lists it) -- then the previous manager stays in use; results of the middleware call itself are not judged",
         "a proxy bound to a falsy object is bound: bool(proxy) = bool(object), unbound-ness is judged by RuntimeError / "
         "_get_current_object / repr, never by truthiness; None itself is not stored (LocalStack uses it for 'empty')",
         "iteration order of Local.__iter__ is not specified and not judged (items compared as a set)",
@@ -200,10 +219,11 @@ def run(ctx: Ctx):
     # 1. model checking -------------------------------------------------------------------------
     # (independent TLC runs, started side by side: most of their wall time is JVM start-up)
     w = max(2, ctx.workers // 2)
-    with cf.ThreadPoolExecutor(max_workers=5) as ex:
+    with cf.ThreadPoolExecutor(max_workers=6) as ex:
         futs = [ex.submit(ctx.model_check, AREA, "MCLocals", "MCQ_laws", timeout=600, workers=w),
                 ex.submit(ctx.model_check, AREA, "LocalsImpl", "MCQ_impl", timeout=900, workers=w),
                 ex.submit(ctx.model_check, AREA, "LocalsImpl", "MCQ_iop", timeout=900, workers=w),
+                ex.submit(ctx.model_check, AREA, "LocalsImpl", "MCQ_rel", timeout=900, workers=w),
                 ex.submit(refute_bugs, ctx, BUGS_QUICK if q else BUGS),
                 ex.submit(judge_selftest, ctx)]
         for f in futs:
@@ -214,13 +234,14 @@ def run(ctx: Ctx):
         ctx.model_check(AREA, "LocalsImpl", "MCT_impl_full", timeout=3000)
         ctx.model_check(AREA, "LocalsImpl", "MCT_impl_full2", timeout=3000)
         ctx.model_check(AREA, "LocalsImpl", "MCT_iop", timeout=3000)
+        ctx.model_check(AREA, "LocalsImpl", "MCT_rel", timeout=3000)
     ctx.exhaustive = True
     phases["model_checking"] = round(ctx.elapsed() - t0, 1)
     t0 = ctx.elapsed()
     # 2. spec -> code: tours over the exported transition system ----------------------------------
     jobs = []
-    cfgs = (["MCX_q", "MCX_qm", "MCX_q3", "MCX_qf", "MCX_qi"] if q
-            else ["MCX_q", "MCX_qm", "MCX_q3", "MCX_qf", "MCX_qi", "MCX_t", "MCX_t3", "MCX_tf", "MCX_ti"])
+    cfgs = (["MCX_q", "MCX_qm", "MCX_q3", "MCX_qf", "MCX_qi", "MCX_qr"] if q
+            else ["MCX_q", "MCX_qm", "MCX_q3", "MCX_qf", "MCX_qi", "MCX_qr", "MCX_t", "MCX_t3", "MCX_tf", "MCX_ti", "MCX_tr"])
     with cf.ThreadPoolExecutor(max_workers=4) as ex:
         exported = list(ex.map(lambda c: ctx.export(AREA, "MCLocals", c, count_states=False, timeout=1200), cfgs))
     for cfg, recs in zip(cfgs, exported):
